@@ -23,6 +23,7 @@ func (p *Program) LoadConsts() error {
 	}
 	byPkg := map[string][]gv{}
 	ifaceVars := map[string]bool{}
+	ptrFields := map[string]bool{}
 	var pkgPaths []string
 	wantPkg := map[string]bool{}
 	for _, f := range p.CS.Files {
@@ -60,6 +61,16 @@ func (p *Program) LoadConsts() error {
 			} else if _, isIface := v.Type().Underlying().(*types.Interface); isIface {
 				byPkg[pp] = append(byPkg[pp], gv{pp, n, false})
 				ifaceVars[pp+"."+n] = true
+			} else if pt, ok := v.Type().Underlying().(*types.Pointer); ok {
+				// pointers to structs (sema.UInt8Type ...): the integer fields of the pointee, "Name->field"
+				if st, ok := pt.Elem().Underlying().(*types.Struct); ok && strings.HasPrefix(pp, cadenceMod) {
+					for i := 0; i < st.NumFields(); i++ {
+						if _, _, isInt := intInfo(st.Field(i).Type()); isInt {
+							byPkg[pp] = append(byPkg[pp], gv{pp, n + "->" + st.Field(i).Name(), false})
+							ptrFields[pp+"."+n+"->"+st.Field(i).Name()] = true
+						}
+					}
+				}
 			} else if st, ok := v.Type().Underlying().(*types.Struct); ok && st.NumFields() > 0 && st.NumFields() <= 4 {
 				// small structs of integers (MemoryUsage, ComputationUsage): one entry per field
 				allInt := true
@@ -103,6 +114,9 @@ func (p *Program) LoadConsts() error {
 				fmt.Fprintf(&src, "\temit(%q, b(%s))\n", pp+"."+g.name, g.name)
 			} else if ifaceVars[pp+"."+g.name] {
 				fmt.Fprintf(&src, "\tif %s == nil { emit(%q, \"nil\") } else { emit(%q, verifFmt.Sprintf(\"nonnil:%%T\", %s)) }\n", g.name, pp+"."+g.name, pp+"."+g.name, g.name)
+			} else if ptrFields[pp+"."+g.name] {
+				parts := strings.SplitN(g.name, "->", 2)
+				fmt.Fprintf(&src, "\tif %s != nil { emit(%q, verifFmt.Sprint(%s.%s)) }\n", parts[0], pp+"."+g.name, parts[0], parts[1])
 			} else {
 				fmt.Fprintf(&src, "\temit(%q, verifFmt.Sprint(%s))\n", pp+"."+g.name, g.name)
 			}
